@@ -86,7 +86,7 @@ func remoteAckOf(c *eng.Ctx, f *ssa.Function) (eng.Site, func(ssa.Value) bool, f
 	p := c.P
 	var site eng.Site
 	viaHelper := false
-	if hs := p.SitesDirect(f, eng.CallTo(rrT+".getLastAckIdxFromReplica")); len(hs) == 1 {
+	if hs := p.Sites(f, eng.CallTo(rrT+".getLastAckIdxFromReplica")); len(hs) == 1 {
 		site, viaHelper = hs[0], true
 	} else {
 		site = c.One(f, invokeOn(".replicaCli", "GetReplicaAckIndex"), "the follower's ack index (getLastAckIdxFromReplica / replicaCli.GetReplicaAckIndex)")
@@ -120,6 +120,8 @@ func runC08(c *eng.Ctx) {
 	p := c.P
 	handshakeBaselineIsTheGroupAck(c)
 	livenessRecheckedAfterTheSuspendMark(c)
+	rewindOnlyWithinWhatTheLeaderHolds(c)
+	getRefusesNothingTheAppendAdmitted(c)
 	rewindToTheAckIsAccepted(c)
 	putPublicationOrder(c)
 	ready := constOf(c, "models", "ReplicatorReadyState")
@@ -403,7 +405,14 @@ func runC08(c *eng.Ctx) {
 				"the channel becomes ready only when the leader's next replica index equals the follower's next append index (compared directly, or both reset to the leader's ack+1 by a successful reset RPC)", detail)
 		}
 		// every RPC error edge stores failure and returns false
-		rpcs := p.SitesDirect(f, eng.Any(invokeOn(".cliFct", "CreateReplicaServiceClient"), eng.CallTo(rrT+".getLastAckIdxFromReplica"), invokeOn(".replicaCli", "Reset"), invokeOn(".replicaCli", "GetReplicaAckIndex")))
+		var rpcs []eng.Site
+		for _, s := range p.Sites(f, eng.Any(invokeOn(".cliFct", "CreateReplicaServiceClient"), eng.CallTo(rrT+".getLastAckIdxFromReplica"), invokeOn(".replicaCli", "Reset"), invokeOn(".replicaCli", "GetReplicaAckIndex"))) {
+			// the ack RPC inside the helper is represented by the call of the helper
+			if g := s.Instr.Parent(); g != nil && p.FuncKey(g) == rrT+".getLastAckIdxFromReplica" {
+				continue
+			}
+			rpcs = append(rpcs, s)
+		}
 		if len(rpcs) < 3 {
 			c.Undecided("expected 3 fallible calls in IsReady, found %d", len(rpcs))
 		}
@@ -608,33 +617,7 @@ func runC08(c *eng.Ctx) {
 	// ---- the registry of family logs is replaced in the hold in which it was read ----------------------------------------------
 	// (a partition registered between the read and the replacement would be dropped from the registry while a write stream keeps
 	// using it; the next look-up opens a second partition over the same files, with its own append position)
-	c.Rule("ATOMIC", "replica.writeAheadLog.destroy{registry read + replace}", func() {
-		f := c.Fn("replica.writeAheadLog.destroy")
-		walMu := "replica.writeAheadLog.mutex"
-		ls := p.Locks(f, nil)
-		var reads []ssa.Instruction
-		for _, b := range eng.BlocksT(f) {
-			for _, in := range b.Instrs {
-				if eng.LoadField("replica.writeAheadLog.familyLogs")(p, in) {
-					reads = append(reads, in)
-				}
-			}
-		}
-		stores := p.Sites(f, eng.StoreField("replica.writeAheadLog.familyLogs"))
-		if len(reads) == 0 || len(stores) == 0 {
-			c.Undecided("unresolved anchor: destroy reads (%d) and replaces (%d) w.familyLogs", len(reads), len(stores))
-		}
-		for i, st := range stores {
-			for j, rd := range reads {
-				ok, why := ls.SameHold(rd, st.Instr, walMu, true)
-				c.Check(ok, fmt.Sprintf("read-and-replace-one-hold[%d,%d]", i, j), st.Instr, f, "the registry is replaced in the write hold in which the kept logs were selected from it", why)
-			}
-		}
-		g := c.Fn("replica.writeAheadLog.GetOrCreatePartition")
-		for i, s := range c.Some(g, eng.MapUpdateOf("replica.writeAheadLog.familyLogs"), "w.familyLogs[key] = p") {
-			c.Check(p.Locks(g, nil).At(s.Instr).HasField(walMu, true), fmt.Sprintf("register-under-the-mutex[%d]", i), s.Instr, g, "a new partition is registered under the same mutex", "")
-		}
-	})
+	walRegistryReplacedInOneHold(c)
 
 	c.Rule("LAYOUT", "replica.writeAheadLog.GetOrCreatePartition{cache key names what the log directory names}", func() {
 		f := c.Fn("replica.writeAheadLog.GetOrCreatePartition")
@@ -726,6 +709,39 @@ func replicaLogTestAndAppendAtomic(c *eng.Ctx) {
 		set := c.One(rf, invokeOn("", "SetAppendedSeq"), "log.SetAppendedSeq(idx-1)")
 		if held != "" {
 			c.Check(p.Locks(rf, nil).At(set.Instr).HasField(held, true), "reset-under-the-same-mutex", set.Instr, rf, "ResetReplicaIndex moves the appended sequence under the mutex that ReplicaLog appends under", "not held")
+		}
+	})
+}
+
+// walRegistryReplacedInOneHold (shared by C08 and C07).
+func walRegistryReplacedInOneHold(c *eng.Ctx) {
+	p := c.P
+	_ = p
+	c.Rule("ATOMIC", "replica.writeAheadLog.destroy{registry read + replace}", func() {
+		f := c.Fn("replica.writeAheadLog.destroy")
+		walMu := "replica.writeAheadLog.mutex"
+		ls := p.Locks(f, nil)
+		var reads []ssa.Instruction
+		for _, b := range eng.BlocksT(f) {
+			for _, in := range b.Instrs {
+				if eng.LoadField("replica.writeAheadLog.familyLogs")(p, in) {
+					reads = append(reads, in)
+				}
+			}
+		}
+		stores := p.Sites(f, eng.StoreField("replica.writeAheadLog.familyLogs"))
+		if len(reads) == 0 || len(stores) == 0 {
+			c.Undecided("unresolved anchor: destroy reads (%d) and replaces (%d) w.familyLogs", len(reads), len(stores))
+		}
+		for i, st := range stores {
+			for j, rd := range reads {
+				ok, why := ls.SameHold(rd, st.Instr, walMu, true)
+				c.Check(ok, fmt.Sprintf("read-and-replace-one-hold[%d,%d]", i, j), st.Instr, f, "the registry is replaced in the write hold in which the kept logs were selected from it", why)
+			}
+		}
+		g := c.Fn("replica.writeAheadLog.GetOrCreatePartition")
+		for i, s := range c.Some(g, eng.MapUpdateOf("replica.writeAheadLog.familyLogs"), "w.familyLogs[key] = p") {
+			c.Check(p.Locks(g, nil).At(s.Instr).HasField(walMu, true), fmt.Sprintf("register-under-the-mutex[%d]", i), s.Instr, g, "a new partition is registered under the same mutex", "")
 		}
 	})
 }
